@@ -68,9 +68,12 @@ MODELS = {
     "broad_peak": "broad_peak", "_spherepy": "_spherepy",
     "pyplug": os.path.join(ASSETS, "pyplug.py"), "allpd": os.path.join(ASSETS, "allpd.py"),
     "pyscalar": os.path.join(ASSETS, "pyscalar.py"),
+    # twin of allpd with narrow limits on its parameter (directed family only, see DIRECTED_ONLY)
+    "allpdlim": os.path.join(ASSETS, "allpdlim.py"),
     # a python form factor with a compiled structure factor: PyKernel and DllKernel under one ProductKernel
     "pyplug@hardsphere": os.path.join(ASSETS, "pyplug.py") + "@hardsphere",
 }
+DIRECTED_ONLY = {"allpdlim"}      # in no random history: the random pool is what the soaks validated
 PY_MODELS = {"broad_peak", "_spherepy", "pyplug", "pyscalar"}
 GENERIC = set()       # builtin models added to the pool in the thorough tier
 FQ_MODELS = {"sphere", "cylinder", "core_multi_shell", "pyplug", "allpd", "_spherepy"}
@@ -201,6 +204,12 @@ PARS = {
         "r50": {"r": 50.0},
         "pd": {"r": 10.0, "r_pd": 0.1, "r_pd_n": 5},
         "empty": {"r": -10.0, "r_pd": 0.1, "r_pd_n": 5},
+    },
+    "allpdlim": {
+        "def": {},
+        # the same settings as allpd's "pd": three of the five points lie inside [8, 12]
+        "pd": {"r": 10.0, "r_pd": 0.1, "r_pd_n": 5},
+        "pd9": {"r": 10.0, "r_pd": 0.3, "r_pd_n": 9, "r_pd_type": "schulz"},
     },
 }
 # number of effective-radius modes of the form factor, for models where there is a choice
@@ -1051,7 +1060,7 @@ def gen_history(w, n_ops):
         return "%s%d" % (prefix, nid[0])
 
     def add_model():
-        name = w.choice(sorted(MODELS))
+        name = w.choice(sorted(m_ for m_ in MODELS if m_ not in DIRECTED_ONLY))
         dtype = "single" if (name not in PY_MODELS and w.random() < 0.2) else "double"
         op = {"op": "load", "id": new_id("m"), "model": name, "dtype": dtype}
         ops.append(op)
@@ -1222,7 +1231,7 @@ def sweep_configs(tier):
     """Every ordered pair of requests from the pool on one kernel of each kind
     (result-buffer and scratch-vector leaks are pairwise phenomena)."""
     out = []
-    models = sorted(m for m in MODELS if m not in GENERIC) if tier != "quick" else \
+    models = sorted(m for m in MODELS if m not in GENERIC and m not in DIRECTED_ONLY) if tier != "quick" else \
         ["sphere", "cylinder", "sphere@hardsphere", "sphere@hayter_msa", "cylinder@hardsphere", "pyplug@hardsphere",
          "_spherepy", "pyplug", "pyscalar", "allpd"]
     for model in models:
@@ -1366,6 +1375,21 @@ def sweep_configs(tier):
         for c in cfgops[:3]:
             ops += [dict(c, s="s1"), dict(ev, s="s2"), dict(ev, s="s1")]
         out.append({"kind": "history", "ops": ops, "recheck_seed": 2, "family": "sibling_instances"})
+    # two models whose parameters share every dispersity setting (type, points, width, nsigma,
+    # centre, relative) but not their limits, one after the other in either order and through
+    # either interface: what a distribution looks like must not be remembered without its limits
+    for a, b in (("allpd", "allpdlim"), ("allpdlim", "allpd")):
+        for key_a, key_b in (("pd", "pd"), ("pd", "pd9")):
+            ops = []
+            for n_, (model, key) in enumerate(((a, key_a), (b, key_b))):
+                pars = key if key in PARS[model] else "pd"
+                ops += [{"op": "load", "id": "m%d" % n_, "model": model, "dtype": "double"},
+                        {"op": "make_kernel", "id": "k%d" % n_, "m": "m%d" % n_, "q": "q3", "model": model},
+                        {"op": "call", "k": "k%d" % n_, "model": model, "fn": "Iq", "pars": pars,
+                         "cutoff": 0.0, "mono": False}]
+            ops += [{"op": "call", "k": "k0", "model": a, "fn": "Fq", "pars": "pd", "cutoff": 0.0, "mono": False},
+                    {"op": "call", "k": "k1", "model": b, "fn": "Iq", "pars": "pd", "cutoff": 1e-3, "mono": False}]
+            out.append({"kind": "history", "ops": ops, "recheck_seed": 10, "family": "same_settings_different_limits"})
     from checks import c11_threads
     out.extend(c11_threads.sweep_configs(tier))
     return out
